@@ -145,6 +145,7 @@ def shards(tier, seed):
     out += [('pair', i, tier) for i in range(len(PAIRS))]
     out += [('hooked', i, tier) for i in range(0, len(u), 8)]
     out += [('order', i, tier) for i in range(len(SAME_MASK))]
+    out += [('decctx', 0, tier), ('decctx', 1, tier)]
     out += [('refused', i, tier) for i, r in enumerate(u) if any(a[0] == 'W' and a[1] is None for a in r) or i % 6 == 0]
     out.append(('extra', seed % 4, tier))
     return out
@@ -155,7 +156,7 @@ def bounds(tier, seed):
     return {'rules': [rr.default_text(r) for r in u], 'flavours': 'all', 'numeric_texts': NUM_VALUES}
 
 
-FLOORS = {'after_refused_parse': 500, 'shared_route_roundtrips': 2000, 'pair_roundtrips': 300, 'pair_backtracks': 20, 'hooked_roundtrips': 1000, 'roundtrips': 3000, 'with_conversion': 300, 'with_anonymous': 100, 'adjacent_wildcards': 100, 'path_filter': 100}
+FLOORS = {'under_decimal_context': 4, 'after_refused_parse': 500, 'shared_route_roundtrips': 2000, 'pair_roundtrips': 300, 'pair_backtracks': 20, 'hooked_roundtrips': 1000, 'roundtrips': 3000, 'with_conversion': 300, 'with_anonymous': 100, 'adjacent_wildcards': 100, 'path_filter': 100}
 
 
 def roundtrip(rmod, rule, text, path, hook=None):
@@ -445,6 +446,27 @@ def work(spec):
             check_hooked(res, rmod, rule)
             check_shared(res, rmod, rule)
         core.add_sample(res, {'hooked_rules': [rr.default_text(r) for r in u[i:i + 8]]})
+    elif kind == 'decctx':
+        # the application computes money with a narrow decimal context (precision 6, or trapping inexact results) on this thread
+        import decimal
+        saved = decimal.getcontext().copy()
+        try:
+            ctx = decimal.getcontext()
+            if i == 0:
+                ctx.prec = 6
+            else:
+                ctx.traps[decimal.Inexact] = True
+                ctx.prec = 4
+            for rule in [r for r in universe() if any(a[0] == 'W' and a[2] == 'float' for a in r)]:
+                before = len(res['violations'])
+                check_rule(res, rmod, rule)
+                res['counters']['under_decimal_context'] += 1
+                for v in res['violations'][before:]:
+                    v['case']['decctx'] = i
+                    v['sig'] = 'decimal-context:' + (v['sig'] or '')
+        finally:
+            decimal.setcontext(saved)
+        core.add_sample(res, {'decimal_context': ['prec=6', 'prec=4 + Inexact trap'][i]})
     elif kind == 'refused':
         rule = universe()[i]
         check_refused(res, rmod, rule)
@@ -463,6 +485,20 @@ def work(spec):
 
 
 def replay(case):
+    if 'decctx' in case:
+        import decimal
+        saved = decimal.getcontext().copy()
+        try:
+            ctx = decimal.getcontext()
+            if case['decctx'] == 0:
+                ctx.prec = 6
+            else:
+                ctx.traps[decimal.Inexact] = True
+                ctx.prec = 4
+            r = replay({k: v for k, v in case.items() if k != 'decctx'})
+        finally:
+            decimal.setcontext(saved)
+        return None if r is None else ('the calling thread works with the decimal context ' + ['prec=6', 'prec=4 with the Inexact trap'][case['decctx']] + ': ' + r)
     sut.load(fresh=bool(case.get('after_rules')) or bool(case.get('fresh')))
     rmod = sut.sub('router.radirouter')
     for t in case.get('after_rules') or []:
